@@ -97,8 +97,45 @@ def scenario(tier):
     return fn
 
 
+def flatten_dates(b, sym):
+    """create under one fixed-offset zone, flatten under another: the dates in the packing list denote the same instants"""
+    z1 = 60 * sym.choose("create_zone_minutes", [0, -480, 330])
+    z2 = 60 * sym.choose("flatten_zone_minutes", [60, -480, -150])
+    b.use_fixed_offset(z1)
+    b.mkfile("R/clip.mov", 5, size=4, mtime=1577836800 + 12345)
+    b.mkfile("R/d/b.txt", 6, size=0, mtime=1577000000)
+    r = b.run("create", root="R", h=["md5", "c4"])
+    b.require(r.exit == 0 and r.exc is None, "create-exit-0", str(r))
+    src = b.manifests("R")[0]
+    b.use_fixed_offset(z2)
+    r = b.run("flatten", root="R", dest="OUT")
+    b.require(r.exit == 0 and r.exc is None, "flatten-exit-0", str(r))
+    win = b.now_window()
+    pls = [p for p in b.walk_files("OUT") if p.endswith(".mhl")]
+    b.require(len(pls) == 1, "one-packing-list", str(pls))
+    pl = b.read_manifest_at(pls[0])
+    cd = b.date_attr(pl.creator.get("creationdate"))
+    b.require(cd is not None and truth(in_window(cd[0], win)) and truth(cd[2] == z2), "date-offset-in-force", "creationdate of the packing list: %r" % (pl.creator.get("creationdate"),))
+    for rec in pl.files():
+        s = src.record(rec.path)
+        b.require(s is not None, "file-recorded", rec.path)
+        sz = b.int_attr(rec.size)
+        b.require(sz is not None and truth(sz == b.size("R/" + rec.path)), "size-attribute", rec.path)
+        for e in rec.entries:
+            se = s.entry(e.fmt)
+            d0, d1 = b.date_attr(se.hashdate), b.date_attr(e.hashdate)
+            b.require(d1 is not None and truth(d0[0] == d1[0]) and truth(d0[1] == d1[1]), "date-denotes-instant",
+                      "hashdate of %s %s: %r in the history, %r in the packing list (zones %+d / %+d min)" % (rec.path, e.fmt, se.hashdate if b.real else "sym", e.hashdate if b.real else "sym", z1 // 60, z2 // 60))
+        if rec.lastmod is not None:
+            d = b.date_attr(rec.lastmod)
+            b.require(truth(d[0] == b.mtime("R/" + rec.path)), "date-denotes-instant", "lastmodificationdate of %s in the packing list" % rec.path)
+
+
 def harnesses(tier):
-    return [Harness("c16-dates", scenario(tier), frontier=4, budget_s=900, real_opts={"clock": "real"},
+    return [Harness("c16-flatten", flatten_dates, frontier=3, budget_s=600,
+                    what="create under a fixed-offset zone (UTC, -8 h, +5:30), flatten under another (+1 h, -8 h, -2:30): sizes and dates of the packing list",
+                    bounds={"zones": "3 x 3 fixed offsets"}, outside=["DST zones for flatten (covered for create by c16-dates)"]),
+            Harness("c16-dates", scenario(tier), frontier=4, budget_s=900, real_opts={"clock": "real"},
                     what="create on one file: size 0..3 symbolic; zone = symbolic standard offset (whole minutes, +-14 h) with or without a +1 h "
                          "daylight offset; DST flag of 'now' and of the file's modification instant symbolic and independent; file age symbolic "
                          "up to 300 days: size / lastmodificationdate / hashdate / creationdate / manifest name checked against instants and offsets",
